@@ -131,6 +131,16 @@ pub fn actions() -> Vec<Action> {
         let name: &'static str = ["mint-guarded-by-plutus-v1", "mint-guarded-by-plutus-v2", "mint-guarded-by-plutus-v3"][version as usize - 1];
         v.push(Action { name, tx: lower(&src), args: args.clone(), direct: false, own_store: None });
     }
+    // two guarded policies in one transaction, one of them the policy the single guarded mints use: where a policy
+    // stands among the minted ones is a fact about one transaction
+    {
+        let src = format!(
+            "party S;\nparty R;\ntx t(q: Int) {{\n    input src {{\n        from: S,\n        min_amount: fees + Ada(q),\n    }}\n    mint {{\n        amount: AnyAsset(0x{lo}, \"L\", 1),\n        redeemer: 7,\n    }}\n    mint {{\n        amount: AnyAsset(0x{hi}, \"T\", 1),\n        redeemer: (),\n    }}\n    output o0 {{\n        to: S,\n        amount: src - fees + AnyAsset(0x{lo}, \"L\", 1) + AnyAsset(0x{hi}, \"T\", 1),\n    }}\n    cardano::plutus_witness {{\n        version: 3,\n        script: 0x4E4D01000033222220051200120013,\n    }}\n}}\n",
+            lo = "10".repeat(28),
+            hi = "c1".repeat(28)
+        );
+        v.push(Action { name: "mint-two-guarded-policies", tx: lower(&src), args: args.clone(), direct: false, own_store: None });
+    }
     // one template, two witness scripts of one length: the bodies are byte-identical, the witness sets are not
     {
         let src = format!(
@@ -363,8 +373,8 @@ impl Prop for C20 {
         format!(
             "explicit-state breadth-first search whose transition function is the implementation: state = history of resolutions replayed on a fresh \
              tx3_cardano::Compiler, state key = bytes of Compiler.latest_tx_body (the other fields are asserted unchanged at every transition); alphabet of \
-             25 actions (23 resolutions (templates with 0, 1, 2, 5 outputs, min_utxo of the first / last output, one failing in reduce, one with InputNotResolved, one \
-             failing in compile, a 1000-byte datum, min_utxo in a threshold, four templates whose arguments (and inputs) were applied upstream and that arrive with an empty argument map, two that look at the same address when it holds another UTxO, a guarded mint under each Plutus version, one mint template with two native scripts of one length (identical bodies, different witness sets), a payment from a wallet that covers it with 100 lovelace to spare); 2 direct Compiler::compile calls on constant templates); depth {} ; 3 stores (ample, huge, tight) x 3 protocol-parameter sets (separate models). In every state every action is resolved on a replica \
+             26 actions (24 resolutions (templates with 0, 1, 2, 5 outputs, min_utxo of the first / last output, one failing in reduce, one with InputNotResolved, one \
+             failing in compile, a 1000-byte datum, min_utxo in a threshold, four templates whose arguments (and inputs) were applied upstream and that arrive with an empty argument map, two that look at the same address when it holds another UTxO, a guarded mint under each Plutus version, a mint under two guarded policies, one mint template with two native scripts of one length (identical bodies, different witness sets), a payment from a wallet that covers it with 100 lovelace to spare); 2 direct Compiler::compile calls on constant templates); depth {} ; 3 stores (ample, huge, tight) x 3 protocol-parameter sets (separate models). In every state every action is resolved on a replica \
              and its outcome (payload, hash, fee | error kind | panic) compared with the outcome on a fresh instance (itself reproduced 3 times). Each evaluation (history + target) runs on a thread of its own, so per-thread state leaks from a history into its target only. Every \
              transition executes the real resolve_tx, so model and implementation cannot diverge.",
             if tier.is_thorough() { 4 } else { 3 }
